@@ -14,9 +14,10 @@ import (
 
 	"verif/ev"
 	"verif/rig/codec"
+	"verif/rig/mesh"
 )
 
-func TestMain(m *testing.M) { codec.Register(); ev.Main(m) }
+func TestMain(m *testing.M) { codec.Register(); mesh.Boot(); mesh.SpreadPorts(); ev.Main(m) }
 
 const partCodec = "codec"
 
